@@ -54,7 +54,7 @@ MANIFEST = dict(
 )
 
 IMPORTS = ['Coq.Lists.List', 'Coq.Bool.Bool', 'Coq.ZArith.ZArith', 'Coq.Strings.String', 'SV.SM.Store', 'SV.SM.StoreCert',
-           'SV.SM.StoreCopy', 'SV.SM.StoreCopySrc', 'SV.SM.StoreCopyExport', 'SV.SM.KvAdd', 'SV.SM.KvAddFresh',
+           'SV.SM.StoreCopy', 'SV.SM.StoreCopySrc', 'SV.SM.StoreCopyExport', 'SV.SM.StoreCopyFlow', 'SV.SM.KvAdd', 'SV.SM.KvAddFresh',
            'SV.SM.OpPurity', 'SV.SM.CollapseCensus', 'SV.Gen.CopyCensus_gen', 'SV.Gen.CopyExportReads_gen',
            'SV.Gen.C09OpCensus_gen', 'SV.Gen.C09Collapse_gen', 'SV.Props.C09']
 CORPUS = hc.VERIF / 'corpus' / 'C09'
@@ -897,6 +897,7 @@ def run(ck: Ck) -> None:
             obs[f'copy_covers_fields:{cls}'] = f'copy_covers_fields census_{cls}'
             obs[f'copy_fresh_mutables:{cls}'] = f'copy_fresh_mutables census_{cls}'
             obs[f'copy_sources_match:{cls}'] = f'copy_sources_match census_{cls} sources_{cls}'
+            obs[f'copy_args_lossless:{cls}'] = f'copy_args_lossless census_{cls} flows_{cls}'
             real = side.get('class_of', {}).get(cls, cls)
             obs[f'copy_export_equal:{cls}'] = f'copy_export_ok census_{cls} sources_{cls} export_reads_{real}'
             obs[f'export_reads_are_fields:{cls}'] = f'reads_are_fields census_{cls} export_reads_{real}'
@@ -919,17 +920,22 @@ def run(ck: Ck) -> None:
         obs['collapse_census_size'] = 'Nat.leb 20 (List.length collapse_writes) && Nat.leb 10 (List.length collapse_enters)'
         obs['all_classes_export_ok'] = 'all_export_ok'
         obs['all_sources_present'] = 'Nat.eqb (List.length all_sources) %d && all_sources_match' % len(side.get('classes', []))
+        obs['all_flows_present'] = 'Nat.eqb (List.length all_flows) %d && all_args_lossless' % len(side.get('classes', []))
         obs['all_classes_present'] = 'Nat.eqb (List.length all_census) %d' % len(side.get('classes', []))
         res = ck.instance_obligations(IMPORTS, obs)
         failing = [k for k, v in res.items() if not v]
         if failing:
             ck.tie_broken.append('copy census obligations failed: ' + ', '.join(failing))
             detail = ck.coq_eval(IMPORTS, [f'(not_covered census_{c}, not_fresh census_{c}, wrong_source census_{c} sources_{c}, '
-                                           f'export_broken census_{c} sources_{c} export_reads_{side.get("class_of", {}).get(c, c)})'
+                                           f'export_broken census_{c} sources_{c} export_reads_{side.get("class_of", {}).get(c, c)}, '
+                                           f'lossy_fields census_{c} flows_{c})'
                                            for c in side.get('classes', [])], name='census_detail')
             if detail:
-                ck.extra['census_offending_fields(not_covered, not_fresh, wrong_source, export_broken)'] = {
-                    c: d for c, d in zip(side.get('classes', []), detail) if d.replace(' ', '') not in ('(nil,nil,nil,nil)', '([],[],[],[])')}
+                ck.extra['census_offending_fields(not_covered, not_fresh, wrong_source, export_broken, lossy_argument)'] = {
+                    c: d for c, d in zip(side.get('classes', []), detail) if d.replace(' ', '') not in ('(nil,nil,nil,nil,nil)', '([],[],[],[],[])')}
+                ck.extra['census_flows_of_offending_classes'] = {
+                    c: {f: fl for f, fl in side.get('flows', {}).get(c, {}).items() if fl != [[f, 'ident']]}
+                    for c in side.get('classes', []) if not res.get(f'copy_args_lossless:{c}', True)}
             bad_cl = ck.coq_eval(IMPORTS, ['(collapse_template_sites collapse_writes, collapse_template_sites collapse_enters)'],
                                  name='collapse_detail')
             if bad_cl:
@@ -970,6 +976,7 @@ def run(ck: Ck) -> None:
             ck.explain(f'instance:copy_covers_fields:{cls}')
             ck.explain(f'instance:copy_sources_match:{cls}')
             ck.explain(f'instance:copy_export_equal:{cls}')
+            ck.explain(f'instance:copy_args_lossless:{cls}')
         if any_key(*[f'shared-mutable:{o}:' for o in owners], *[f'mutation-visible:{o}:' for o in owners]):
             ck.explain(f'instance:copy_fresh_mutables:{cls}')
     if any_key('kv-add-'):
@@ -982,6 +989,7 @@ def run(ck: Ck) -> None:
             ck.explain(f'instance:{b}_branch_appends_copy')
     if any_key('copy-incomplete:'):
         ck.explain('instance:all_sources_present')
+        ck.explain('instance:all_flows_present')
         ck.explain('instance:all_classes_export_ok')
     if any_key('shared-mutable:', 'mutation-visible:'):
         ck.explain('certificate:export_ok')
